@@ -120,6 +120,18 @@ fn pick_scenario(check: &Check, seed: u64) -> usize {
 pub fn execute(check: &Check, scenario: &Scenario, seed: u64, index: u64, replay: Option<Vec<u32>>) -> RunReport {
     let rc = RunCfg { seed, index, replay, max_polls: scenario.max_polls, classes: check.classes.clone(), max_virtual_secs: scenario.max_virtual_secs };
     let mut r = kit::run_one(&rc, scenario.run);
+    // No property tolerates a panic inside remoc: whatever the check, a panic whose location lies in
+    // remoc's sources is a violation (identified by file and line).
+    if r.violation.is_none()
+        && let Some(first) = r.panics.iter().find(|p| p.contains("/remoc/src/") || p.contains("/remoc_macro/src/"))
+    {
+        let loc = first.split(": ").next().unwrap_or("").rsplit('/').next().unwrap_or("").to_string();
+        r.violation = Some(Violation {
+            kind: "panic-in-remoc".into(),
+            signature: format!("panic:{loc}"),
+            detail: format!("remoc panicked during the run: {:?}", r.panics),
+        });
+    }
     // Debug aid: turn budget aborts into pseudo-violations so that they get minimised and written out.
     if r.violation.is_none()
         && let Some(a) = &r.aborted
